@@ -1,0 +1,7 @@
+//go:build !verif
+
+package transport
+
+// verifYield marks a point where the verification harness (build tag verif) may perturb the
+// schedule; without the tag it is an empty function that the compiler inlines away.
+func verifYield(string) {}
